@@ -1573,6 +1573,17 @@ def m_call_fn(I, st, fr, t, args, name):
     tup = I.resolve(st, args[1]) if len(args) > 1 else Agg('tuple', None, [])
     cargs = tup.fields if isinstance(tup, Agg) and tup.adt == 'tuple' else []
 
+    # a function item called through the Fn traits (`helper(self, FileLogWriterBuilder::append)`) is the same call as the direct one: the rule's
+    # designation (effect entry / not inlined) applies to it as well
+    cv = I.resolve(st, clo)
+    if isinstance(cv, Ref):
+        try:
+            cv = I.read_cell_path(st, cv.cell, cv.proj)
+        except Exception:
+            pass
+    if isinstance(cv, FnItem) and (any(r.search(cv.path) for r in I.effects) or any(r.search(cv.path) for r in I.no_inline)):
+        return I.extern_value(st, cv.path, list(cargs), t.get('dest_ty'), line=t.get('line'), fn=fr.body.path)
+
     def cont(s3, caller, rv):
         I.write_place(s3, caller, t['dest'], rv)
         I.goto(s3, caller, t['target'])
@@ -1669,6 +1680,7 @@ DEFAULT_MODELS = {
     r'^std::option::Option::<T>::(unwrap|expect)$|^std::result::Result::<T, E>::(unwrap|expect)$': m_unwrap_like,
     r'^std::option::Option::<T>::unwrap_or$|^std::result::Result::<T, E>::unwrap_or$': m_unwrap_or,
     r'as std::ops::Fn(Once|Mut)?<.*>>::call(_once|_mut)?$': m_call_fn,
+    r'^std::ops::Fn(Once|Mut)?::call(_once|_mut)?$': m_call_fn,        # unresolved form inside a generic function (`f: impl FnOnce(..)`)
     r'as std::cmp::PartialEq(<.*>)?>::(eq|ne)$|^std::cmp::PartialEq::(eq|ne)$|<impl std::cmp::PartialEq(<.*>)? for .*>::(eq|ne)$': m_matches_eq,
     r'as std::cmp::PartialOrd(<.*>)?>::(lt|le|gt|ge)$|^std::cmp::PartialOrd::(lt|le|gt|ge)$': m_partial_ord,
 }
